@@ -142,7 +142,10 @@ func meterScenario(s *hx.Seq) {
 }
 
 func meterRun(s *hx.Seq, ops []string, depth int, cfgI int, cfgName string) bool {
-	t0, t1 := epoch.Add(-48*time.Hour), epoch.Add(-24*time.Hour)
+	// the clock reads fractions of a second, the configured times are whole seconds: a time assembled from
+	// two sources shows
+	epoch := epoch.Add(123456789 * time.Nanosecond)
+	t0, t1 := epoch.Truncate(time.Second).Add(-48*time.Hour), epoch.Truncate(time.Second).Add(-24*time.Hour)
 	ok := true
 	seqs(len(ops), depth, func(path []int) bool {
 		s.Eval(1)
